@@ -35,7 +35,7 @@ def run(report, db, tier):
     r1(report, db, P)
     r2(report, db, P, classes, versions)
     r3(report, db, P, cg, classes, versions)
-    r4(report, db, P)
+    r4(report, db, P, classes, versions)
     r5(report, db, P, cg, classes, versions)
     r6(report, db, P, cg)
     r5b(report, db, P, cg, classes, versions)
@@ -551,6 +551,41 @@ def generic_shape(fi, side, S=None):
         return 'the per-field step does not use the (name, type) pair'
     kname = ('op', 'index', (el, ('const', 0)))
     tname = ('op', 'index', (el, ('const', 1)))
+
+    def pair_record(t):
+        """NT(*el) for a two-field namedtuple NT and the (name, type) pair
+        el of an .items() view: cannot fail, and its fields are el[0], el[1]"""
+        return (isinstance(t, tuple) and t[:1] == ('call',) and
+                isinstance(t[1], tuple) and t[1][:1] == ('ntcls',) and
+                len(t[1][2]) == 2 and len(t[2]) == 1 and not t[3] and
+                t[2][0][:2] == ('op', 'star') and
+                struct(t[2][0][2][0]) == struct(el))
+
+    def rw(t):
+        if not isinstance(t, tuple):
+            return t
+        if t[:1] == ('attr',) and len(t) == 3 and pair_record(t[1]) and \
+                t[2] in t[1][1][2]:
+            return ('op', 'index', (el, ('const', t[1][1][2].index(t[2]))))
+        return tuple(rw(x) for x in t)
+
+    class _Ev(object):
+        def __init__(self, e):
+            self.kind, self.node = e.kind, e.node
+            if e.kind == 'call':
+                self.fn, self.args = rw(e.fn), tuple(rw(a) for a in e.args)
+                self._repr = repr(e)
+            else:
+                self.base, self.attr, self.value = e.base, rw(e.attr), \
+                    rw(e.value)
+
+        def __repr__(self):
+            return self._repr
+    if any(pair_record(x) for e in evs for a in (
+            [e.fn] + list(e.args) if e.kind == 'call' else [e.attr, e.value])
+            if isinstance(a, tuple) for x in subterms(a)):
+        evs = [_Ev(e) for e in evs if not (
+            e.kind == 'call' and pair_record(e.res))]
     if side == 'r':
         sets = [e for e in evs if e.kind == 'store']
         calls = [e for e in evs if e.kind == 'call']
@@ -896,7 +931,7 @@ def helper_pair(db, c, root):
 
 
 # ---------------------------------------------------------------------------
-def r4(report, db, P):
+def r4(report, db, P, classes=(), versions=()):
     R = report.rule('R05.4', 'Packet.write sends self.id as a VarInt before '
                     'the fields, into the buffer that is then framed')
     wr = db.own_method(P.packet_ci, 'write')
@@ -946,7 +981,37 @@ def r4(report, db, P):
     # the `id` property resolves through get_id(context)
     idp = db.own_method(P.packet_ci, 'id')
     if idp is None:
-        raise AnalysisError('Packet.id property vanished')
+        ad = db.find_attr(P.packet_ci, 'id')
+        if ad is None or ad.kind == 'def':
+            raise AnalysisError('Packet.id property vanished')
+        # not spelt as a method: `id` was assigned a descriptor object.  What
+        # an instance reads through it is folded for every registered class
+        # and version (P.wire_id) and must be what get_id(context) gives
+        # (P.table_id)
+        n = 0
+        for cv in sorted(classes, key=lambda c: c.ci.fq):
+            if db.find_attr(cv.ci, 'id') is not ad:
+                continue
+            for v in versions:
+                if not registered(P, cv, v):
+                    continue
+                n += 1
+                w, t = P.wire_id(cv, v), P.table_id(cv, v)
+                if w != t:
+                    report.violation(
+                        R, 'write:id-property', ad.path if hasattr(
+                            ad, 'path') else P.packet_ci.path,
+                        ad.node if hasattr(ad, 'node') else P.packet_ci.node,
+                        P.packet_ci.qualname, 'an instance of %s reads id %r '
+                        'under protocol %s but get_id(context) gives %r'
+                        % (cv.ci.name, w, P.vname(v), t))
+                    return
+        if n < 1000:
+            raise AnalysisError('Packet.id is a descriptor object: only %d '
+                                'class x version ids could be folded' % n)
+        report.ok(R, 'Packet.id (a descriptor object) reads as '
+                  'get_id(context) for %d class x version pairs' % n)
+        return
     txt = ast.unparse(idp.node)
     if 'self.get_id(self.context)' in txt:
         report.ok(R, 'Packet.id -> self.get_id(self.context)')
